@@ -2,10 +2,22 @@
 
 P = {
     "id": "C08",
-    "coq_targets": ["Properties/C08.vo", "Run/Eval_GoUrl.vo"],
+    "coq_targets": ["Properties/C08.vo", "Run/Eval_GoUrl.vo", "Run/Eval_C08.vo"],
     "theorems_module": "Properties.C08",
     "theorems": [],
     "streams": [{
+        "name": "requests", "pkg": "./internal/rules", "test": "TestVerifC08",
+        "overlay": {"internal/rules/zz_verif_c08_test.go": "c08/c08_test.go"},
+        "eval_module": "Run.Eval_C08", "check_term": "check pinned",
+        "n_quick": 1200, "n_thorough": 30000, "shard": 150,
+        "findings": {1: "C08-F1", 2: "C08-F2", 3: "C08-F3", 4: "C08-F4", 5: "C08-F5"},
+    }, {
+        "name": "units", "pkg": "./internal/rules", "test": "TestVerifC08Units",
+        "overlay": {"internal/rules/zz_verif_c08_test.go": "c08/c08_test.go"},
+        "eval_module": "Run.Eval_C08", "check_term": "ucheck pinned",
+        "n_quick": 1500, "n_thorough": 30000,
+        "findings": {2: "C08-F2", 5: "C08-F5"},
+    }, {
         "name": "gourl", "pkg": "./internal/rules/config", "test": "TestVerifGoUrl",
         "overlay": {"internal/rules/config/zz_verif_gourl_test.go": "gourl/gourl_test.go"},
         "eval_module": "Run.Eval_GoUrl", "check_term": "check",
